@@ -102,16 +102,26 @@ func (s *coordinatorState) handleRecentOrCatchupResult(res result) {
 
 	// update failed heights
 	for h := range res.failed {
-		nextRetry, _ := s.retryStrategy.nextRetry(retryAttempt{}, time.Now())
+		nextRetry, _ := s.retryStrategy.nextRetry(s.lastAttempt(h), time.Now())
 		s.failed[h] = nextRetry
 	}
+}
+
+// lastAttempt returns the most advanced retry attempt recorded for the height, so that a height that
+// fails again continues its backoff instead of starting over.
+func (s *coordinatorState) lastAttempt(h uint64) retryAttempt {
+	last := s.failed[h]
+	if inRetry, ok := s.inRetry[h]; ok && last.count < inRetry.count {
+		last = inRetry
+	}
+	return last
 }
 
 func (s *coordinatorState) handleRetryResult(res result) {
 	// move heights that has failed again to failed with keeping retry count, they will be picked up by
 	// retry workers later
 	for h := range res.failed {
-		lastRetry := s.inRetry[h]
+		lastRetry := s.lastAttempt(h)
 		// height will be retried after backoff
 		nextRetry, retryExceeded := s.retryStrategy.nextRetry(lastRetry, time.Now())
 		if retryExceeded {
